@@ -5,7 +5,7 @@
 //! when an implementation uses an ArrayVec method the shim does not model.
 use scpi::error::{Error, ErrorCode, ErrorQueue};
 
-const M: usize = 4;
+const M: usize = 6;
 struct Model {
     items: [i16; M],
     len: usize,
@@ -66,7 +66,7 @@ fn drive<Q: ErrorQueue>(q: &mut Q, cap: usize) {
     }
     // drain: order and overflow marker in the newest retained position
     let mut k = 0;
-    while k < M {
+    while k < 4 {
         let got = q.pop_front_error();
         let exp = m.pop();
         assert!(got.map(|e| e.get_code()) == exp, "C12/ErrorQueue/drain-returns-retained-entries-in-order-with-350-in-the-newest-slot-after-overflow");
@@ -93,3 +93,123 @@ pub fn vec_queue() {
     let mut q = alloc::vec::Vec::<Error>::new();
     drive(&mut q, M);
 }
+
+
+/// From ANY queue content (every length 0..=n_max, each entry an ordinary error with a symbolic
+/// code or an earlier overflow marker) every sequence of NOPS further operations behaves like
+/// the abstract bounded FIFO — the induction step of the history statement, on the real
+/// `arrayvec` crate and on `alloc::vec::Vec`.  Lengths and operation kinds are enumerated
+/// concretely (CBMC's model of `ptr::copy` with a symbolic element count, which
+/// `ArrayVec::pop_at` reaches through `Drain::drop`, reports spurious results: see
+/// DESIGN 2b), codes and marker positions are symbolic.
+trait RawPush {
+    fn raw_push(&mut self, e: Error);
+}
+impl<const CAP: usize> RawPush for arrayvec::ArrayVec<Error, CAP> {
+    fn raw_push(&mut self, e: Error) {
+        self.push(e)
+    }
+}
+impl RawPush for alloc::vec::Vec<Error> {
+    fn raw_push(&mut self, e: Error) {
+        self.push(e)
+    }
+}
+
+fn from_state<Q: ErrorQueue + RawPush, const NOPS: usize>(q: &mut Q, cap: usize, n0: usize, ops: [u8; NOPS]) {
+    let mut m = Model { items: [0; M], len: 0, cap };
+    let mut i = 0;
+    while i < n0 {
+        let code: i16 = kani::any();
+        if code == -350 {
+            q.raw_push(Error::new(ErrorCode::QueueOverflow));
+        } else {
+            q.raw_push(Error::custom(code, b"c"));
+        }
+        m.items[i] = code;
+        m.len += 1;
+        i += 1;
+    }
+    let mut step = 0;
+    while step < NOPS {
+        match ops[step] {
+            0 => {
+                let code: i16 = kani::any();
+                kani::assume(code != -350);
+                q.push_back_error(Error::custom(code, b"n"));
+                m.push(code);
+            }
+            1 => {
+                let got = q.pop_front_error();
+                let exp = m.pop();
+                assert!(got.map(|e| e.get_code()) == exp, "C12/ErrorQueue::pop_front_error/returns-errors-in-insertion-order");
+            }
+            _ => {
+                q.clear_errors();
+                m.len = 0;
+            }
+        }
+        assert!(q.num_errors() == m.len, "C12/ErrorQueue::num_errors/reports-the-length-exactly");
+        assert!(q.is_empty() == (m.len == 0), "C12/ErrorQueue::is_empty/iff-length-zero");
+        step += 1;
+    }
+    let mut k = 0;
+    while k < n0 + NOPS && k < cap {
+        let got = q.pop_front_error();
+        let exp = m.pop();
+        assert!(got.map(|e| e.get_code()) == exp, "C12/ErrorQueue/drain-returns-retained-entries-in-order-with-350-in-the-newest-slot-after-overflow");
+        k += 1;
+    }
+    assert!(q.pop_front_error().is_none(), "C12/ErrorQueue/never-holds-more-than-N");
+}
+
+macro_rules! from_any_state {
+    ($name:ident, $new:expr, $cap:expr, $nmax:expr, 2) => {
+        #[kani::proof]
+        #[kani::unwind(7)]
+        pub fn $name() {
+            let mut n0 = 0;
+            while n0 <= $nmax {
+                let mut a = 0u8;
+                while a < 3 {
+                    let mut b = 0u8;
+                    while b < 3 {
+                        let mut q = $new;
+                        from_state(&mut q, $cap, n0, [a, b]);
+                        b += 1;
+                    }
+                    a += 1;
+                }
+                n0 += 1;
+            }
+        }
+    };
+    ($name:ident, $new:expr, $cap:expr, $nmax:expr, 3) => {
+        #[kani::proof]
+        #[kani::unwind(7)]
+        pub fn $name() {
+            let mut n0 = 0;
+            while n0 <= $nmax {
+                let mut a = 0u8;
+                while a < 3 {
+                    let mut b = 0u8;
+                    while b < 3 {
+                        let mut c = 0u8;
+                        while c < 3 {
+                            let mut q = $new;
+                            from_state(&mut q, $cap, n0, [a, b, c]);
+                            c += 1;
+                        }
+                        b += 1;
+                    }
+                    a += 1;
+                }
+                n0 += 1;
+            }
+        }
+    };
+}
+from_any_state!(arrayvec_cap3_from_any_state_2ops, arrayvec::ArrayVec::<Error, 3>::new(), 3, 3, 2);
+from_any_state!(arrayvec_cap2_from_any_state, arrayvec::ArrayVec::<Error, 2>::new(), 2, 2, 3);
+from_any_state!(arrayvec_cap3_from_any_state, arrayvec::ArrayVec::<Error, 3>::new(), 3, 3, 3);
+from_any_state!(vec_from_any_state_2ops, alloc::vec::Vec::<Error>::new(), M, 3, 2);
